@@ -17,7 +17,10 @@ import odl
 from symnp.ctx import flat
 from symnp.scalars import is_symscalar
 
-EXPLANATION = ('C18: the Fourier operators are executed on arrays of solver variables with both back-ends; the DFT must '
+EXPLANATION = ('C18 (wavelets): WaveletTransform / WaveletTransformInverse with the Haar wavelet on even lengths (1-3d, axes '
+               'subsets, 1-3 levels, all extension modes): inverse(W(x)) = x, W(inverse(c)) = c, both returned adjoints '
+               'satisfy the adjoint identity in the inner products of the spaces (cell volumes != 1), energy identity. '
+               'C18 (Fourier): the Fourier operators are executed on arrays of solver variables with both back-ends; the DFT must '
                'equal the discrete Fourier sum over the chosen axes (exact arithmetic for lengths 2, 3, 4, 6: sqrt(3) '
                'through its axiom), the inverse must recover every input, numpy and pyfftw results must coincide '
                'out-of-place and in-place and must not depend on the previous contents of outputs, temporaries or plan '
@@ -32,10 +35,14 @@ OUTSIDE = ['the FFT libraries themselves (numpy.fft, FFTW): replaced by the disc
            'real libraries at one point per explored path',
            'convergence to the analytic transform of a Gaussian under grid refinement (an asymptotic statement about '
            'floating-point values on growing grids; the check decides the exact quadrature formula instead)',
-           'wavelet transforms: decomposition and reconstruction happen inside PyWavelets (C extension); see '
-           'MANIFEST level_note',
+           'wavelets other than Haar, odd lengths at any level, biorthogonal wavelets: decomposition and reconstruction '
+           'happen inside PyWavelets (compiled); only the Haar wavelet on even lengths is modelled (symnp.pywtmodel), '
+           'where every extension mode gives the same coefficients',
            'floating-point rounding']
-ASSUMPTIONS = ['FFTW planning with an effort above ESTIMATE overwrites both plan arrays (documented; FFTW does so when it '
+ASSUMPTIONS = ['pywt.wavedecn / waverecn / ravel_coeffs / unravel_coeffs for the Haar wavelet on even lengths compute the '
+               'pairwise sums and differences scaled by 1/sqrt(2) in the documented coefficient layout (compared with '
+               'PyWavelets at one point per explored path)',
+               'FFTW planning with an effort above ESTIMATE overwrites both plan arrays (documented; FFTW does so when it '
                'really measures, observed for n = 1000; concrete replays run the real FFTW behind a wrapper that '
                'overwrites the plan arrays with NaN after such planning, so that the contract is observable at the '
                'small sizes of the check)',
@@ -79,6 +86,22 @@ def configs(tier, seed):
         out.append(('dft-inverse-real-full/%s/pyfftw' % 'x'.join(map(str, shape)),
                     dict(kind='dft', shape=shape, axes=tuple(range(len(shape))), impl='numpy', hc=False, sign='-',
                          dtype='float64', pyfftw_inverse_only=True)))
+    # wavelets (Haar on even lengths; see symnp.pywtmodel)
+    wl = [((4,), [(0.0, 2.0)]), ((8,), [(0.0, 1.0)]), ((4, 2), [(0.0, 2.0), (0.0, 1.0)]), ((2, 4), [(-1.0, 1.0), (0.0, 1.0)]),
+          ((2, 4, 2), [(0.0, 1.0), (0.0, 2.0), (0.0, 4.0)])]
+    for shape, box in wl:
+        nd = len(shape)
+        for axes in [None] + [a for a in subsets(nd) if len(a) < nd]:
+            tr = range(nd) if axes is None else axes
+            maxlev = min(int(math.log2(shape[d])) for d in tr)
+            for nlevels in range(1, maxlev + 1):
+                for pad in ('pywt_periodic', 'constant', 'symmetric', 'periodic', 'order0', 'order1', 'reflect', 'antisymmetric'):
+                    if tier == 'quick' and pad not in ('pywt_periodic', 'symmetric') and nd > 1:
+                        continue
+                    cid = 'wavelet/haar/%s/axes=%s/levels=%d/%s' % (
+                        'x'.join(map(str, shape)), 'all' if axes is None else ','.join(map(str, axes)), nlevels, pad)
+                    out.append((cid, dict(kind='wavelet', shape=shape, box=box, axes=axes, impl='pywt', hc=False,
+                                          sign='-', dtype='float64', shift=(nlevels, pad))))
     # continuous transform
     ft_shapes = [((3,), [(0.0, 1.5)]), ((4,), [(-1.0, 1.0)]), ((5,), [(-1.0, 0.25)]),
                  ((3, 4), [(0.0, 1.5), (-1.0, 3.0)]), ((4, 3), [(-2.0, 2.0), (0.5, 1.25)])]
@@ -152,6 +175,10 @@ def dft_reference(ctx, X, axes, sign, hc):
             acc = acc + X[j] * w
         out[k] = acc
     return out
+
+
+def fftw_contract_doc():
+    pass
 
 
 def fftw_contract():
@@ -283,5 +310,28 @@ def case(ctx, kind, shape, axes, impl, hc, sign, dtype, box=None, shift=None, py
         op3 = T.FourierTransform(dom, **dict(kw, impl=other))
         ctx.eq('ft[%s]=ft[%s]' % (other, impl), op3(x), y)
         ctx.eq('inverse[%s](ft[%s](x))=x' % (other, impl), op3.inverse(y), x0)
+        return
+    if kind == 'wavelet':
+        nlevels, pad = shift
+        lo = [b[0] for b in box]
+        hi = [b[1] for b in box]
+        dom = odl.uniform_discr(lo, hi, shape, dtype=dtype)
+        W = T.WaveletTransform(dom, wavelet='haar', nlevels=nlevels, pad_mode=pad, axes=axes, impl='pywt')
+        x = ctx.element(dom, 'x')
+        x0 = ctx.snapshot(x)
+        c = W(x)
+        ctx.fact('coefficient-count', W.range.size == dom.size)
+        ctx.eq('input-unchanged', x, x0)
+        Winv = W.inverse
+        ctx.eq('inverse(W(x))=x', Winv(c), x0)
+        cc = ctx.element(W.range, 'c')
+        c0 = ctx.snapshot(cc)
+        ctx.eq('W(inverse(c))=c', W(Winv(cc)), c0)
+        ctx.eq('coefficients-unchanged', cc, c0)
+        # orthogonal wavelet: the returned adjoints satisfy the adjoint identity (inner products of the spaces)
+        ctx.eq('<W x, c>=<x, W.adjoint(c)>', W(x).inner(cc), x.inner(W.adjoint(cc)))
+        ctx.eq('<inverse(c), x>=<c, inverse.adjoint(x)>', Winv(cc).inner(x), cc.inner(Winv.adjoint(x)))
+        # energy: Haar analysis is orthogonal, so the plain sums of squares agree
+        ctx.eq('sum(W(x)^2)=sum(x^2)', sum(v * v for v in flat(c)), sum(v * v for v in x0) + bump)
         return
     raise ValueError(kind)
